@@ -61,6 +61,7 @@ func (w *world) faults() {
 	}
 	var jobs []job
 	outs := make([][]byte, len(reps))
+	protFrom := make([]int, len(reps)) // encrypted messages: first offset of the integrity-protected packet body (-1: none)
 	strict := make([]map[int]bool, len(reps)) // detached binary signatures: offsets that are authenticated
 	for ri, s := range reps {
 		s.msgName = fmt.Sprintf("rep%d", ri)
@@ -74,6 +75,20 @@ func (w *world) faults() {
 			return
 		}
 		outs[ri] = out
+		protFrom[ri] = -1
+		if s.op == "encrypt" || s.op == "symmetric" {
+			if pk, err := pgpref.SplitPackets(out); err == nil {
+				for _, p := range pk {
+					if p.Tag == 18 {
+						protFrom[ri] = p.BodyStart
+					}
+				}
+			}
+			if protFrom[ri] < 0 {
+				c.Violation("encrypted message has no integrity-protected (tag 18) packet", s.String())
+				return
+			}
+		}
 		for off := range out {
 			for _, x := range subs(out[off]) {
 				jobs = append(jobs, job{rep: ri, off: off, sub: x})
@@ -225,7 +240,7 @@ func (w *world) faults() {
 		}
 		c.Eval(len(readSizes) - 1)
 		for _, rs := range readSizes {
-			w.judgeFault(j.rep, j.off, s, msg, rs, detail, &mu, identical)
+			w.judgeFault(j.rep, j.off, s, msg, rs, detail, &mu, identical, protFrom[j.rep] >= 0 && j.off >= protFrom[j.rep])
 		}
 	})
 	ranges := map[string]string{}
@@ -240,7 +255,7 @@ func (w *world) faults() {
 }
 
 // judgeFault reads one faulted message with one read size and classifies the outcome.
-func (w *world) judgeFault(rep, off int, s spec, msg []byte, readSize int, detail func(map[string]any) map[string]any, mu *sync.Mutex, identical map[string][]int) {
+func (w *world) judgeFault(rep, off int, s spec, msg []byte, readSize int, detail func(map[string]any) map[string]any, mu *sync.Mutex, identical map[string][]int, protected bool) {
 	c := w.c
 	r := w.readMessage(msg, w.ring, s.pass, readSize)
 	switch {
@@ -264,6 +279,11 @@ func (w *world) judgeFault(rep, off int, s spec, msg []byte, readSize int, detai
 		}
 		verified := md.IsSigned && md.SignedBy != nil
 		switch {
+		case same && protected:
+			// everything inside the tag-18 packet is covered by the MDC: the hash runs over the
+			// whole decrypted stream (signature packets and the MDC packet header included), so
+			// a change there must be reported even when the literal data comes out unchanged
+			c.Violation("fault inside the integrity-protected (MDC) container is read to EOF without any error", detail(map[string]any{"IsSigned": md.IsSigned, "plaintext_identical": true}))
 		case same:
 			c.Outcome("EOF reached, identical plaintext (fault in unauthenticated framing)")
 			mu.Lock()
